@@ -24,6 +24,16 @@ def _step_arms(fn):
     return {}
 
 
+def _step_closure(fn):
+    """Body of the closure that contains the match on Step (the closure handed to self.exec)."""
+    for nd in H.walk(fn["body"]):
+        if nd.get("k") == "Closure":
+            for m_ in H.walk(nd["body"]):
+                if m_.get("k") == "Match" and sum(len(H.arm_variants(a, "Step")) for a in m_["arms"]) >= 3:
+                    return nd["body"]
+    return None
+
+
 def _opt_paths(ctx_paths, scrut_pat):
     return None
 
@@ -42,14 +52,27 @@ def writers_agree(run, ctx):
         """per Step variant: set of (decisions, written value) over the paths of its arm; W(x) = the write primitive"""
         arms = _step_arms(fn)
         out = {}
+        clo = _step_closure(fn)
         for v, (pat, arm) in arms.items():
             res = set()
-            for p in S.paths_of(arm["body"], combinators=True):
+            # paths of the whole closure that go through this arm: what the arm hands to a common tail after the
+            # match (`let group = match step {..}; match group {..}`) belongs to it
+            if clo is not None:
+                arm_paths = [p for p in S.paths_of(clo, combinators=True) if any(ev.kind == "arm" and ev.node is arm for ev in p.events)]
+            else:
+                arm_paths = S.paths_of(arm["body"], combinators=True)
+            for p in arm_paths:
                 if p.exit == "try-err":
                     continue
                 # what is written on this path (the write primitive applied to ..), wherever the value goes
                 inner = W_VEC_IN if wrx is W_VEC else W_FMT_IN
-                writes = ["W(%s)" % inner.match(ev.a).group(1) for ev in p.events if ev.kind == "call" and inner.match(ev.a or "")]
+                plain = {ev.a: ev.b for ev in p.events if ev.kind == "let" and re.match(r"^\w+$", ev.a or "") and re.match(r"^\w+(\.to_string\(\))?$", ev.b or "")}
+                writes = []
+                for ev in p.events:
+                    if ev.kind == "call":
+                        ta = H.subst_lets(ev.a or "", plain)        # (the written value may have gone through a helper's parameter)
+                        if inner.match(ta):
+                            writes.append("W(%s)" % inner.match(ta).group(1))
                 val = "Err" if (p.val or "").startswith("Err(") else "-"
                 dec = []
                 feasible_ = True
